@@ -53,7 +53,7 @@ def mk_dag(names, edges, latents=()):
     from pgmpy.base import DAG
     from pgmpy.models import BayesianNetwork
     lat = [gen.lab(names[v]) for v in latents]
-    if latents and (len(edges) + len(latents)) % 2 == 0:
+    if (len(edges) + len(latents)) % 2 == 0:
         # the public way of declaring latent nodes one by one, on the class most users build; a latent declared on one graph
         # object must never show up in another one (the workers build thousands of graphs in one process)
         g = BayesianNetwork()
@@ -324,7 +324,7 @@ def gen_minsep(rng, tier):
     if not pairs:
         return None
     x, y = rng.choice(pairs)
-    if x in lat or y in lat:
+    if (x in lat or y in lat) and rng.random() < .5:
         lat = [v for v in lat if v not in (x, y)]
     return {"n": n, "edges": [list(e) for e in edges], "x": x, "y": y, "latents": lat,
             "names": gen.node_names(rng, n, rng.choice(["str", "word", "int"]))}
